@@ -14,7 +14,7 @@ import (
 // C01 — no input can crash the host: the public API is total.
 
 // apiCalls is the menu of observations made after (or around) an evaluation.
-var apiCalls = []string{"Run", "Run", "Run", "Parse+RunAfterParsed", "Parse+RunAfterParsed×2", "ParseOnly", "RunExpr", "RunExprUp"}
+var apiCalls = []string{"Run", "Run", "Run", "Parse+RunAfterParsed", "Parse+RunAfterParsed×2", "ParseOnly", "RunExpr", "RunExprUp", "Parse;RunAfterParsed-regardless", "RunAfterParsed-only"}
 
 // hostileSource draws one source text; the family name is returned for evidence.
 func hostileSource(r *fw.Rand) (string, string) {
@@ -91,8 +91,16 @@ func c01Case(w *fw.W, idx int, r *fw.Rand) {
 		cfg.ParseLimit = 0
 	}
 	prior := ""
-	if r.P(1, 3) && idx >= len(c01Deterministic) {
-		prior = gen.ValidProgram(r, 2, false)
+	if idx >= len(c01Deterministic) {
+		switch r.Intn(6) {
+		case 0:
+			prior = gen.ValidProgram(r, 2, false)
+		case 1:
+			prior = gen.DiceProgram(r)
+		case 2:
+			c := gen.Corpus()
+			prior = c[r.Intn(len(c))]
+		}
 	}
 	call := r.Pick(apiCalls)
 	if idx < len(c01Deterministic) {
@@ -169,6 +177,18 @@ func c01Case(w *fw.W, idx int, r *fw.Rand) {
 				mon.Ticks, mon.Rolls = 0, 0
 				guard("RunAfterParsed(2)", func() { _ = vm.RunAfterParsed() })
 			}
+		}
+	case "Parse;RunAfterParsed-regardless":
+		// a host that does not look at Parse's error before running
+		guard("Parse", func() { _ = vm.Parse(src) })
+		if !aborted {
+			guard("RunAfterParsed(after whatever Parse returned)", func() { accepted = vm.RunAfterParsed() == nil })
+		}
+	case "RunAfterParsed-only":
+		// re-running what the prior call left (or nothing at all on a fresh VM)
+		guard("RunAfterParsed(without Parse)", func() { accepted = vm.RunAfterParsed() == nil })
+		if !aborted {
+			guard("Run", func() { _ = vm.Run(src) })
 		}
 	case "RunExpr", "RunExprUp":
 		guard("RunExpr", func() {
@@ -252,7 +272,7 @@ func init() {
 		Floors: func(tier string) map[string]int64 {
 			return map[string]int64{"accepted": 3000, "rejected": 3000, "executed_some_code": 5000, "family_matrix": 2000, "family_mutated-corpus": 1000}
 		},
-		HangWall: 40,
+		HangWall: 15,
 		Rule:     "case = (source from one of 10 hostile families or the deterministic list, configuration with OpCountLimit in {50,1000,30000}, optional prior program on the same VM, API call shape); every API call runs under recover(), the child under a 3 GiB address-space limit and a work meter (cap 64·limit+200000 dispatches+dice); a canary VM runs after every case. distinct = hash of (source, configuration, call shape, prior); non-trivial = non-empty source",
 		Assumptions: []string{"an operation budget is always configured (the property promises exhaustion-freedom only then)", "a work-meter overrun stands for 'hang'; unmetered native loops are caught by the per-case watchdog + isolated CPU-limited re-run"},
 	})
